@@ -468,9 +468,9 @@ func run(c *core.Ctx) {
 	}
 	var passes []pass
 	if c.Quick() {
-		passes = []pass{{gens.Paths(true), 2, gens.PathData(3)}}
+		passes = []pass{{gens.Paths(true), 2, gens.PathData(3)}, {gens.WidePaths(), 3, gens.WideDocs()}}
 	} else {
-		passes = []pass{{gens.Paths(true), 2, gens.PathData(4)}, {gens.Paths(false), 3, gens.PathData(3)}}
+		passes = []pass{{gens.Paths(true), 2, gens.PathData(4)}, {gens.Paths(false), 3, gens.PathData(3)}, {gens.WidePaths(), 3, gens.WideDocs()}}
 	}
 	n := 0
 	for _, p := range passes {
